@@ -27,7 +27,8 @@ LEVEL = "exploration"
 RULE = (
     "values enumerated exhaustively (containers list/tuple/dict/OrderedDict/dataclass of length 0-2 over a "
     "boundary alphabet, nesting depth <=2) plus Hypothesis-generated deeper values plus the length guard; every value "
-    "is hashed in-process and in a second interpreter with another PYTHONHASHSEED; all values are bucketed by "
+    "is hashed in-process and in a second interpreter with another PYTHONHASHSEED and time zone, generated values once more after an inner container "
+    "was modified in place (must equal the hash of a fresh equal value); all values are bucketed by "
     "signature and two values in one bucket must have the same canonical form (tuple->list, bool->int, path/date->text, "
     "dict->list of [key,value] pairs; a dataclass is its own kind). Non-trivial = value contains a boundary int (outside 32 bits or at its "
     "edge), a special float, an empty container or a separator/marker-like string; distinct by encoded value."
@@ -344,6 +345,17 @@ def shard_random(idx, n, tier, seed, count):
             # a value and its re-hash must agree (same process)
             if dds_hash(v) != res[1]:
                 raise Violation(f"hash of {v!r} not stable within a process", {"kind": "total", "value": j})
+            # the same object hashed again after one of its inner containers was modified in place
+            if mutate_inner(v):
+                j2 = enc(v)
+                try:
+                    again, fresh = dds_hash(v), dds_hash(dec(j2))
+                except DDSException:
+                    again = fresh = None
+                if again != fresh:
+                    raise Violation(f"after an inner container was modified in place the object hashes to {str(again)[:12]}, an equal fresh value {dec(j2)!r} to {str(fresh)[:12]}",
+                                    {"kind": "mutated", "value": j})
+                ev.features["rand:modified-in-place"] += 1
             if not ev.shrinking and len(seen) < 400:
                 seen.append((j, res))
 
@@ -426,6 +438,26 @@ def run(tier, seed, scale=1.0):
     if tier == "thorough" and not viols and not errors:
         fuzz_campaign(ev, viols, errors, seed, runs=int(40000 * scale))
     return ev, viols, errors
+
+
+def mutate_inner(v):
+    """modify in place the first list / dict found inside v (not v itself); True if something was modified"""
+    def walk(x, top):
+        if isinstance(x, list):
+            if not top:
+                x.append("modified in place")
+                return True
+            return any(walk(y, False) for y in x)
+        if isinstance(x, tuple):
+            return any(walk(y, False) for y in x)
+        if isinstance(x, dict):
+            if not top:
+                x["modified in place"] = 1
+                return True
+            return any(walk(y, False) for y in x.values())
+        return False
+
+    return walk(v, True)
 
 
 def fuzz_campaign(ev, viols, errors, seed, procs=16, runs=40000):
@@ -533,6 +565,13 @@ def replay(case):
         rb = hash_value(dds_hash, DDSException, codes, b)
         if ra[0] == "sig" and ra == rb and canon(a) != canon(b):
             raise Violation(f"collision: {a!r} and {b!r} share signature {ra[1]}", case)
+    elif k == "mutated":
+        v = dec(case["value"])
+        before = dds_hash(v)
+        mutate_inner(v)
+        again, fresh = dds_hash(v), dds_hash(dec(enc(v)))
+        if again != fresh:
+            raise Violation(f"after an inner container was modified in place the object (first hash {before[:12]}) hashes to {again[:12]}, an equal fresh value to {fresh[:12]}", case)
     elif k == "guard":
         ev = Ev()
         check_length_guard(ev)
